@@ -1,5 +1,6 @@
 import OZ.Lemmas.NftEnumerable
 import OZ.Lemmas.NftBits
+import OZ.Lemmas.NftLayers
 /-
 C10 — Every NFT has exactly one owner and the enumerations mirror ownership.
 
@@ -456,6 +457,31 @@ theorem bit_layer_refines_set_layer :
     refine ⟨bk', h1, h2, ?_⟩
     show some (upd (bitOf bk) id true) = some (bitOf bk')
     rw [funext h3]
+
+/-- run-level refinement: for EVERY history the bit-level contract and the set-level contract
+accept and reject exactly the same calls and stay related — same balances, approvals,
+operators, counter and ledger, same owner marks, same burned set, and the set-level bits are
+the abstraction `bitOf` of the buckets (which stay well-formed, with no bit at or above the
+counter). Hence every getter answers the same at both levels. -/
+theorem bit_layer_run_refines_set_layer (cfg : Cfg) (now : Nat) (ops : List (List Nat × Op))
+    (sB : BState) (sS : SState)
+    (hB : sB = NftCons.run bitOps cfg (NftCons.init noBuckets now) ops)
+    (hS : sS = NftCons.run setOps cfg (NftCons.init (fun _ => false) now) ops) :
+    sS.toCore = sB.toCore ∧ sS.mark = sB.mark ∧ sS.burned = sB.burned ∧ sS.bits = bitOf sB.bits ∧
+    WFB sB.bits ∧ (∀ i, bitOf sB.bits i = true → i < sB.nextId) ∧
+    (∀ id, NftCons.ownerOf bitOps sB id = NftCons.ownerOf setOps sS id) := by
+  subst hB; subst hS
+  have h0 : SR bitOf WFB (NftCons.init noBuckets now) (NftCons.init (fun _ => false) now) :=
+    ⟨rfl, rfl, rfl, rfl, WFB_empty, fun i hi => by cases hi⟩
+  have h := run_sim bitOps_impl cfg ops h0
+  exact ⟨h.core, h.mark, h.burned, h.bits, h.wf, h.lt, fun id => ownerOf_sim bitOps_impl h id⟩
+
+/-- one call: both layers accept / reject together and return the same value -/
+theorem bit_layer_call_refines_set_layer (cfg : Cfg) {sB : BState} {sS : SState}
+    (h : SR bitOf WFB sB sS) (auth : List Nat) (op : Op) :
+    RelE (fun p p' => SR bitOf WFB p.1 p'.1 ∧ p.2 = p'.2)
+      (NftCons.apply bitOps cfg sB auth op) (NftCons.apply setOps cfg sS auth op) :=
+  apply_sim bitOps_impl cfg h auth op
 
 /-! ## non-vacuity -/
 
